@@ -291,6 +291,23 @@ def shrink(ctx, case_line, differs):
     return cur
 
 
+def _rerun_ok(ctx):
+    """re-runs of single cases are for scheduler noise; a change that hangs everywhere must not turn a check into an hour of 60-second
+    re-runs: at most 24 per check, and none once 6 of them have themselves hit the deadline"""
+    n = getattr(ctx, '_reruns', 0)
+    if n >= 24 or getattr(ctx, '_reruns_dead', 0) >= 6:
+        return False
+    ctx._reruns = n + 1
+    return True
+
+
+def _rerun(ctx, c):
+    res = replay_cases(ctx, [c])
+    if res and 'harness-failed' in res[0][1]:
+        ctx._reruns_dead = getattr(ctx, '_reruns_dead', 0) + 1
+    return res
+
+
 WATCHDOG_RE = re.compile(r'harness-timeout|did not return|\bhang|hung|timed out|never returned|never-returned|never-entered')
 
 
@@ -315,11 +332,11 @@ def compare(ctx, rows, proj, what, oracle=None, nontrivial=None, max_report=3, o
             ctx.traces_validated += 1
         if oracle is not None:
             msg = oracle(c, gd)
-            if msg and WATCHDOG_RE.search(msg) and len(wd_rerun) < 40:
+            if msg and WATCHDOG_RE.search(msg) and len(wd_rerun) < 40 and _rerun_ok(ctx):
                 # the message comes from a wall-clock watchdog of the harness (a call that did not return in time, a case past its
                 # deadline): on an overloaded machine that can happen once; the case is run again alone and judged on that run
                 wd_rerun.append(c)
-                again = replay_cases(ctx, [c])
+                again = _rerun(ctx, c)
                 if again:
                     msg = oracle(c, parse_res(again[0][1]))
                     if msg is None:
@@ -333,9 +350,9 @@ def compare(ctx, rows, proj, what, oracle=None, nontrivial=None, max_report=3, o
     for op in list(bad):
         keep = []
         for c, g, l in bad[op]:
-            if nwd < 40 and (WATCHDOG_RE.search(g) or 'usable=0' in g or 'harness-failed' in g):
+            if nwd < 40 and (WATCHDOG_RE.search(g) or 'usable=0' in g or 'harness-failed' in g) and _rerun_ok(ctx):
                 nwd += 1
-                again = replay_cases(ctx, [c])
+                again = _rerun(ctx, c)
                 if again and proj(parse_res(again[0][1])) == proj(parse_res(again[0][2])):
                     ctx.notes.append(f'{what}: a watchdog flag did not reproduce when the case was re-run alone ({c.split()[1]})')
                     continue
@@ -353,7 +370,10 @@ def compare(ctx, rows, proj, what, oracle=None, nontrivial=None, max_report=3, o
             for c, g, l in bad[op][:8]:
                 if len(keep) >= 2:
                     break      # two cases of this operator have reproduced: that is the finding; the rest is not re-run
-                again = [r for _ in range(recheck) for r in replay_cases(ctx, [c])]
+                if not _rerun_ok(ctx):
+                    keep.append((c, g, l))      # no budget left for re-runs: the disagreement stands
+                    continue
+                again = [r for _ in range(recheck) for r in _rerun(ctx, c)]
                 if again and all(proj(parse_res(gg)) != proj(parse_res(ll)) for _, gg, ll in again):
                     keep.append((c, g, l))
                 else:
